@@ -11,7 +11,7 @@ INFO = {
                "non-error path (so an empty collection is still emitted); start() hands the successor fresh Titles; "
                "the collected rows are produced by the same Context::build the JSON sink uses; every stage in front "
                "of them forwards start and complete, complete is signalled exactly once, and Master::go reaches "
-               "complete on every non-error path. Per-row scenarios decided by partial evaluation: a row is stored exactly when the group key is a string (once, as Context::build(row), under that key, in an insertion-ordered map read front to back); merge stores every row. For text output the group object / merged array is spelled as the top-level printer spells nested values (concise UTF-8 JSON through the string writer).",
+               "complete on every non-error path. Per-row scenarios decided by partial evaluation: a row is stored exactly when the group key is a string (once, as Context::build(row), under that key, in an insertion-ordered map read front to back); merge stores every row. For text output the group object / merged array is spelled as the top-level printer spells nested values (concise UTF-8 JSON through the string writer). Clone impls are field-wise; Context::build is the object of the selections whenever there are selections.",
     "not_decided": "Key order, membership and which rows survive (run-time values of the maps and vectors).",
     "trusted": ["sa/tables/pipeline_order.toml"],
 }
@@ -116,6 +116,10 @@ def run(ctx, rep):
     # (concise UTF-8 JSON through the string writer) - shared with C15
     from rules import printer_rules as _PR
     _PR.text_nested(rep, lib)
+    # rows are cloned when they are stored and again when the collection is emitted
+    common.clone_faithful(rep, lib)
+    from rules import c12 as _c12
+    _c12.build_shape(rep, lib)
 
 
 def collect_scenarios(rep, lib):
